@@ -505,15 +505,21 @@ class MetadorGroup(MetadorNode):
         }
         # NOTE: raw copy needs the raw source (a wrapped node hides metadata and
         # is not accepted as source by all drivers)
-        raw_source = source if isinstance(source, str) else src_node.__wrapped__
-        self.__wrapped__.copy(raw_source, dst_path, **copy_kwargs)  # RAW
+        raw_source = src_node.name if isinstance(source, str) else src_node.__wrapped__
+        # NOTE: raw copies are issued on the container root with absolute paths (HDF5 checks
+        # an absolute destination name for collisions relative to the calling group)
+        raw_root = self._self_container.__wrapped__
+        abs_dst_path = dst_path
+        if not abs_dst_path.startswith("/"):
+            abs_dst_path = self.name.rstrip("/") + f"/{dst_path}"
+        raw_root.copy(raw_source, abs_dst_path, **copy_kwargs)  # RAW
         dst_node = self[dst_path]  # exists now
 
         if src_is_dataset and not without_meta:
             # because metadata lives in parallel group, need to copy separately:
             src_meta: str = src_node.meta._base_dir
             dst_meta: str = dst_node.meta._base_dir  # node will not exist yet
-            self.__wrapped__.copy(src_meta, dst_meta, **copy_kwargs)  # RAW
+            raw_root.copy(src_meta, dst_meta, **copy_kwargs)  # RAW
 
             # register in TOC:
             dst_meta_node = self.__wrapped__[dst_meta]
